@@ -15,6 +15,9 @@ from .common import MachineryError
 # one harness process per cache configuration (valid.SetStructTypeCache works once per process)
 CONFIGS = ["default", "lrudef", "lru0", "lru1", "lru2", "lru3", "lru8", "syncmap", "miss"]
 WRAPPED = [c for c in CONFIGS if c != "default"]
+# replay direction only: small LRUs handed to SetStructTypeCache as they are (no tracing wrapper around them)
+RAW = ["rawlru1", "rawlru2"]
+UNRESETTABLE = ["default"] + RAW
 ACTIONS = ["Call", "LookupHit", "LookupMiss", "AnalyseStep", "StoreInfo", "ApplyOverrideToCopy", "Return"]
 PAR = int(os.environ.get("VERIF_PAR", "8"))
 SEM = threading.BoundedSemaphore(PAR)      # bounds the number of child processes (TLC, harness) running at a time
@@ -159,7 +162,7 @@ def replay_histories(ctx, vh, meta, hists, label, stride_default=1):
 
     def one(cfg):
         args = ["typecache-replay", "-cache", cfg, "-meta", mp]
-        if cfg == "default" and stride_default > 1:
+        if cfg in UNRESETTABLE and stride_default > 1:
             # the library's own cache cannot be emptied: every history needs never-seen types (memory ~2.5 kB each)
             args += ["-stride", str(stride_default)]
         op = ctx.path("replay-%s-%s.ndjson" % (label, cfg))
@@ -167,7 +170,7 @@ def replay_histories(ctx, vh, meta, hists, label, stride_default=1):
         return cfg, common.read_ndjson(op)
 
     with ThreadPoolExecutor(max_workers=len(CONFIGS)) as ex:
-        results = list(ex.map(one, CONFIGS))
+        results = list(ex.map(one, CONFIGS + RAW))
     total_calls = 0
     stats = {}
     for cfg, rows in results:
@@ -175,7 +178,7 @@ def replay_histories(ctx, vh, meta, hists, label, stride_default=1):
         if len(summ) != 1:
             raise MachineryError("typecache-replay %s/%s: no summary" % (label, cfg))
         summ = summ[0]
-        want = nhist if not (cfg == "default" and stride_default > 1) else (nhist + stride_default - 1) // stride_default
+        want = nhist if not (cfg in UNRESETTABLE and stride_default > 1) else (nhist + stride_default - 1) // stride_default
         if summ["histories"] != want:
             raise MachineryError("typecache-replay %s/%s replayed %d of %d histories" % (label, cfg, summ["histories"], want))
         total_calls += summ["calls"]
